@@ -36,7 +36,22 @@ impl CaObjects {
     #[verifier::external_body] pub fn remove_class(&mut self, n: &ResourceClassName) ensures *final(self) == co_remove_class(*old(self), *n) { unimplemented!() }
     #[verifier::external_body] pub fn update_repo(&mut self, c: &RepositoryContact) ensures *final(self) == co_repo(*old(self), *c) { unimplemented!() }
 }
-impl KrillRuntime { #[verifier::external_body] pub fn signer(&self) -> (r: &KrillSigner) { unimplemented!() } }
+impl KrillRuntime {
+    #[verifier::external_body] pub fn signer(&self) -> (r: &KrillSigner) { unimplemented!() }
+    #[verifier::external_body] pub fn tasks(&self) -> (q: &TaskQueue) ensures *q == tasks_of(*self) { unimplemented!() }
+}
+pub uninterp spec fn tasks_of(k: KrillRuntime) -> TaskQueue;
+/// obligation predicate: a successful schedule call for this task was made on this queue (only ever ESTABLISHED by the assumed
+/// contract of TaskQueue::schedule)
+pub uninterp spec fn scheduled(q: TaskQueue, t: Task) -> bool;
+pub uninterp spec fn ca_handle_of(c: CertAuth) -> CaHandle;
+pub uninterp spec fn ca_version_of(c: CertAuth) -> u64;
+impl TaskQueue { #[verifier::external_body] pub fn schedule(&self, task: Task, priority: Priority) -> (r: KrillResult<()>) ensures r is Ok ==> scheduled(*self, task) { unimplemented!() } }
+impl CertAuth {
+    #[verifier::external_body] pub fn handle(&self) -> (r: &CaHandle) ensures *r == ca_handle_of(*self) { unimplemented!() }
+    #[verifier::external_body] pub fn version(&self) -> (r: u64) ensures r == ca_version_of(*self) { unimplemented!() }
+}
+pub assume_specification [now] () -> (r: Priority);
 /// events that change what is published (objects added/removed, a key takes over, a class or the repository goes away)
 pub open spec fn changes_publication(e: CertAuthEvent) -> bool {
     e is RoasUpdated || e is AspaObjectsUpdated || e is BgpSecCertificatesUpdated || e is ChildCertificatesUpdated || e is KeyRollActivated
@@ -53,10 +68,15 @@ def build():
     for t in ['CaObjects', 'KrillRuntime', 'KrillSigner', 'IssuanceTimingConfig', 'KeyValueStore', 'Error', 'RoaUpdates', 'AspaObjectsUpdates',
               'BgpSecCertificateUpdates', 'ChildCertificateUpdates', 'CertifiedKey']:
         U.opaque(t, '')
+    for t in ['TaskQueue', 'CertAuth', 'Priority']:
+        U.opaque(t, '')
+    U.opaque('CaHandle', 'Clone')
+    U.outside('pub fn now() -> Priority { unimplemented!() }')
     U.outside('pub type KrillResult<T> = Result<T, Error>;\npub type CurrentKey = CertifiedKey;\npub type NewKey = CertifiedKey;')
     U.auto_opaque = True
     U.struct(PUB, 'CaObjectsStore', derive=[])
     U.enum(EV, 'CertAuthEvent', keep=KEEP, derive=[])
+    U.enum('src/server/mq.rs', 'Task', keep=['SyncRepo'], derive=[])
     U.add(SPEC)
     U.impl('impl CaObjectsStore', [
         U.loop_fn(PUB, 'CaObjectsStore', 'cert_auth_pre_save_events', 0, 'vx_listener_one_event',
@@ -81,5 +101,11 @@ def build():
                             _ => true }'''),
                       ('other_events_touch_nothing', 'r is Ok && event is VxOther ==> *final(objects) == *old(objects)'),
                   ]),
+        # F23: the listener re-issues whatever is due after EVERY batch of events; when it did, the publication is scheduled here
+        # (no other step does it for events that do not themselves change what is published). Statement lifted verbatim (R17s).
+        U.stmt_fn(PUB, 'CaObjectsStore', 'cert_auth_pre_save_events', 'if reissued', 'vx_publish_what_was_reissued',
+                  '(&self, ca: &CertAuth, krill: &KrillRuntime, reissued: bool) -> (r: KrillResult<()>)', tail='Ok(())',
+                  ensures=[('a_reissued_manifest_is_scheduled_for_publication', '''r is Ok && reissued ==>
+                        scheduled(tasks_of(*krill), Task::SyncRepo { ca_handle: ca_handle_of(*ca), ca_version: ca_version_of(*ca) })''')]),
     ])
     return U
